@@ -78,7 +78,12 @@ def build(case):
             g.log_likelihood(np.array(p["means"][:1], dtype=float))
         g.variance_thresholds = fl
     if not via_ctor:
-        g.weights = np.array(p["weights"], dtype=float)
+        if case.get("weights_in_place"):
+            # g.weights = 4w; g.weights /= 4   (get, in-place operator, set: the setter receives the array it holds)
+            g.weights = np.array(p["weights"], dtype=float) * 4.0
+            g.weights /= 4.0
+        else:
+            g.weights = np.array(p["weights"], dtype=float)
     return g
 
 
@@ -104,7 +109,8 @@ def g_formula(draw):
     if how == "int":
         X = gen.integral(X)
     c = {"p": p, "X": X, "kind": kind, "rare": rare, "weights_via_constructor": gen.choice(draw, [False, False, True]),
-         "as_map": gen.choice(draw, [None, None, None, "plain", "upd_var"]), "order": gen.choice(draw, ["floors_first", "floors_last", "floors_after_a_likelihood"]),
+         "as_map": gen.choice(draw, [None, None, None, "plain", "upd_var"]), "weights_in_place": gen.choice(draw, [False, False, True]),
+         "order": gen.choice(draw, ["floors_first", "floors_last", "floors_after_a_likelihood"]),
          "how": how}
     if gen.choice(draw, [False, True]) and p["floor_kind"] not in ("default", "zero"):
         # some variances are handed over BELOW their floor: the machine must clamp them (and normalise accordingly)
